@@ -441,6 +441,8 @@ pub fn decode_gcno(b: &[u8]) -> Option<Notes> {
     }
     let mut recs = Vec::new();
     let mut have_fn = false;
+    // `total_blocks` of `read_functions`: a file cannot announce more blocks than it has bytes
+    let mut total_blocks: usize = 0;
     macro_rules! rd {
         ($e:expr) => {
             match $e {
@@ -491,10 +493,20 @@ pub fn decode_gcno(b: &[u8]) -> Option<Notes> {
                 for _ in 0..length {
                     rd!(r.skip(4));
                 }
+                total_blocks += length as usize;
+                if total_blocks > r.b.len() {
+                    recs.push(NRec::BlockCount);
+                    return Some(Notes { version, checksum, recs });
+                }
                 recs.push(NRec::Blocks(length));
             } else {
                 let k = rd!(r.u32());
                 if k as usize > r.b.len().saturating_sub(r.pos) {
+                    recs.push(NRec::BlockCount);
+                    return Some(Notes { version, checksum, recs });
+                }
+                total_blocks += k as usize;
+                if total_blocks > r.b.len() {
                     recs.push(NRec::BlockCount);
                     return Some(Notes { version, checksum, recs });
                 }
@@ -650,7 +662,7 @@ pub fn err_kind(msg: &str) -> &'static str {
         "short"
     } else if msg.starts_with("Unexpected block number") || msg.starts_with("Unexpected destination block number") {
         "blockNo"
-    } else if msg.starts_with("Unexpected number of blocks") {
+    } else if msg.starts_with("Unexpected number of blocks") || msg.starts_with("Unexpected total number of blocks") {
         "blockCount"
     } else if msg.starts_with("Record shorter than its content") {
         "recordLen"
